@@ -394,7 +394,9 @@ def check_library(ctx, case, drv, walks=True):
             for k, i in enumerate(order):       # one file per nesting level: the walk order is the list order
                 os.makedirs(d, exist_ok=True)
                 # standard Modelica layout: every directory has its own package.mo
-                fname = "package.mo" if naming == "package.mo" or (naming == "mixed" and i % 2 == 0) else "f%d.mo" % i
+                # (file names with a dotted stem, as in files named after their qualified class `P.A.mo`, every other file)
+                fname = "package.mo" if naming == "package.mo" or (naming == "mixed" and i % 2 == 0) else \
+                    ("Lib.Part%d.mo" % i if i % 2 == 1 else "f%d.mo" % i)
                 p = os.path.join(d, fname)
                 with open(p, "w") as fh:
                     fh.write(files[i]["text"])
